@@ -10,7 +10,9 @@
 (* StreamingEqualsWhole over the representatives this extends C11's model      *)
 (* result from the 14 representatives to all byte values.  It also checks that *)
 (* the pending tail is always a proper prefix of a well-formed sequence.       *)
-EXTENDS Utf8, TLC
+EXTENDS Utf8, Json, TLC
+
+CONSTANTS EmitVectors
 
 VARIABLES pend, b
 vars == <<pend, b>>
@@ -56,4 +58,9 @@ StepAccountsForByte ==
   /\ Len(d.out) <= 2
   /\ (d.pend = <<>> => Len(d.out) >= 1)
   /\ (d.pend # <<>> => d.pend[Len(d.pend)] = b)
+
+\* class-member sweep on the real code: every byte value after every representative tail (the tail arrives in
+\* one feed() call, the byte and a flushing `A` in the next)
+Emit == (EmitVectors /\ pend = RepSeq(pend)) =>
+          PrintT(<<"VEC", ToJson([chunks |-> IF pend = <<>> THEN << <<b, 65>> >> ELSE << pend, <<b, 65>> >>, sw |-> 0])>>)
 =============================================================================
